@@ -5,6 +5,7 @@ pub mod wrappers;
 pub mod observe;
 pub mod tracex;
 pub mod tovalue;
+pub mod schemax;
 pub mod pure;
 pub mod pure2;
 
